@@ -270,6 +270,8 @@ type AStream = AsyncStream<(Inner, Inner)>;
 
 enum Sut {
     None,
+    /// consumed by `into_parts`
+    Gone,
     Sync(Box<SyncStream<Inner>>),
     Async(Pin<Box<AStream>>),
 }
@@ -388,6 +390,7 @@ impl World {
             }
             _ => match &mut self.sut {
                 Sut::None => panic!("operation before constructor: {line}"),
+                Sut::Gone => "gone".to_string(),
                 Sut::Sync(_) => self.sync_op(&w, ex),
                 Sut::Async(_) => self.async_op(&w, ex),
             },
@@ -412,7 +415,7 @@ impl World {
             let at = self.sh.borrow().sent_at_shutdown.unwrap_or(0);
             if at != self.mon.accepted.len() {
                 ex.fail(
-                    "F13:asyncstream-stale-flush",
+                    "F15:asyncstream-stale-flush",
                     format!(
                         "after `{line}`: the inner stream was shut down when only {at} of {} accepted bytes had reached it",
                         self.mon.accepted.len()
@@ -594,12 +597,8 @@ impl World {
                         );
                     }
                 }
-                // keep a stream around so that later lines still have a target
-                self.sut = Sut::Sync(Box::new(SyncStream::with_limits(self.mon.base, self.mon.max, Inner(self.sh.clone()))));
+                self.sut = Sut::Gone;
                 self.mon.taken = delivered;
-                self.mon.accepted = self.sh.borrow().sent.clone();
-                self.mon.rlost = false;
-                self.mon.wlost = false;
                 format!("ok {}", hex(&rest))
             }
             _ => panic!("bad sync op {w:?}"),
@@ -731,7 +730,7 @@ impl World {
                     if sh.sent != mon.accepted {
                         let what = if entry == 1 { "poll_flush" } else { "poll_close" };
                         ex.fail(
-                            "F13:asyncstream-stale-flush",
+                            "F15:asyncstream-stale-flush",
                             format!(
                                 "{what} returned Ready(Ok) but only {} of {} accepted bytes reached the inner stream",
                                 sh.sent.len(),
